@@ -307,6 +307,8 @@ def engine_check(ctx, P, sample_pred, seed_off):
 
 def check_C03(ctx):
     engine_check(ctx, "C03", has_call("delete", "pods"), 3)
+    # history clause: scale-in at slot k removes pod k and no other (no reconcile takes a live, desired, up-to-date pod away)
+    cluster_check(ctx, ["B_C03"], ["P_C03"], invariants=[], properties=["NoCollateralDelete"], scale=0.7)
 
 
 def check_C04(ctx):
@@ -323,6 +325,11 @@ def check_C07(ctx):
 
 def check_C12(ctx):
     engine_check(ctx, "C12", has_call("update", "statefulsets/status"), 12)
+    # status writes of reconciles that hit API failures (conflicts and retries on the status write in particular)
+    snap_trace(ctx, "faults-pods", "faults-pods", 2, 2, 5, 25000 if ctx.quick else 400000, ["P_C12"], 121)
+    snap_trace(ctx, "faults2-pods", "faults2-pods", 2, 2, 5, 15000 if ctx.quick else 300000, ["P_C12"], 122)
+    # history clauses: stale caches, several revisions in flight, exact census at the fixed point
+    cluster_check(ctx, ["B_C12"], ["P_C12"], invariants=["StatusTruth"], properties=[], scale=0.7)
 
 
 def check_C14(ctx):
@@ -360,6 +367,8 @@ def check_C10(ctx):
 
 def check_C11(ctx):
     q = ctx.quick
+    # a pause raised at any moment and lifted later is lossless: same fixed point as the never-paused twin
+    cluster_check(ctx, ["B_C11", "B_C02"], ["P_C11"], invariants=[], properties=["Converges"], scale=0.7)
     ctx.design("MCOwnership", own_cfg("pods", 2, ["I_C11"]), "own-pods")
     ctx.design("MCOwnership", own_cfg("revs", 2, ["I_C11"]), "own-revs")
     ctx.design("MCSnapshot", mc_snapshot_cfg(1, 2, 5, True, ["I_C11"]), "pods-1ord-del")
@@ -412,7 +421,19 @@ def check_C09(ctx):
 
 
 def cluster_C09(ctx):
-    pass
+    cluster_check(ctx, ["B_C09"], ["P_C09"], invariants=[], properties=["Converges"], faults=1)
+
+
+def check_C08(ctx):
+    q = ctx.quick
+    # per-reconcile part: revision lookup / reuse / renumber / create / collision on the history domain
+    ctx.design("MCHistory", hist_cfg(3, ["asc"] if q else ["asc", "desc", "ties"], [0, 3], [0, 1], ["I_C08"]), "history-3revs")
+    sh1, _ = snap_trace(ctx, "history", "history", 2, 2, 5, 50000 if q else 800000, ["P_C08"], 80)
+    ctx.add_samples(sh1, 2, has_call("update", "controllerrevisions"))
+    # history part: edits of replicas / slots / pause never change the update revision, rollbacks reuse revisions
+    cluster_check(ctx, ["B_C08"], ["P_C08"], invariants=[], properties=["NoRestartOnScale"], scale=0.7)
+    ctx.assumptions.append("the clause 'recorded data applied to the set reproduces the template exactly' is evaluated by the harness on "
+                           "the objects (Match/ApplyRevision on the real revision data) for a fixed family of templates; TLC does not enumerate templates")
 
 
 def check_C06(ctx):
@@ -422,6 +443,101 @@ def check_C06(ctx):
     if not q:
         ctx.exhaustive = True
     ctx.add_samples(sh1, 2, has_call("create", "persistentvolumeclaims"))
+
+
+# =================================================================================
+# the cluster engine: Cluster.tla (design), SimCluster (behaviours), harness sim, TraceCluster
+# =================================================================================
+
+def cluster_consts(maxord, maxrep, tmpls, edits, faults, fails, maxpos, mode, extra=""):
+    return ("CONSTANTS MaxOrd = %d\n MaxRep = %d\n Tmpls = {%s}\n Policies = {\"OrderedReady\", \"Parallel\"}\n"
+            " Strats = {\"RollingUpdate\", \"OnDelete\"}\n Edits = %d\n Faults = %d\n Fails = %d\n MaxFaultPos = %d\n InitMode = \"%s\"\n%s"
+            % (maxord, maxrep, ", ".join('"%s"' % t for t in tmpls), edits, faults, fails, maxpos, mode, extra))
+
+
+def extract_behaviours(text, limit):
+    seen, out = set(), []
+    for m in re.finditer(r'<<\s*"BEHAVIOUR",\s*("(?:[^"\\]|\\.)*")\s*>>', text, re.S):
+        js = json.loads(m.group(1))
+        if js not in seen:
+            seen.add(js)
+            out.append(js)
+            if len(out) >= limit:
+                break
+    return out
+
+
+def cluster_check(ctx, beh_invs, rec_invs, invariants, properties, faults=0, fails=0, edits=1, scale=1.0):
+    """design: exhaustive TLC run of Cluster.tla (small constants, temporal properties under fairness);
+    binding: behaviours from TLC's simulator and from the seeded random driver are executed on the real
+    controller; TraceCluster validates each behaviour, TraceSnap each of its reconciles."""
+    q = ctx.quick
+    body = "SPECIFICATION Spec\nVIEW View\nCHECK_DEADLOCK FALSE\n" + "".join("INVARIANT %s\n" % i for i in invariants) + \
+        "".join("PROPERTY %s\n" % p for p in properties)
+    ctx.design("Cluster", cluster_consts(1, 1, ["t0", "t1"], edits, faults, fails, 3, "empty") + body, "cluster-2ord", heap="16g")
+    if not q:
+        ctx.design("Cluster", cluster_consts(1, 2, ["t0", "t1"], 1, faults, 1, 3, "empty") + body, "cluster-2ord-rep2", heap="24g", timeout=3400)
+    # behaviours from the model (direction A)
+    ntlc, nrand, depth = (int(120 * scale), int(120 * scale), 24) if q else (int(1500 * scale), int(3000 * scale), 30)
+    wd = os.path.join(ctx.outdir, "simulate")
+    simcfg = cluster_consts(2, 3, ["t0", "t1", "t2"], 3, 2, 2, 5, "any", " Depth = %d\n" % depth) + \
+        "INIT SimInit\nNEXT SimNext\nINVARIANT Emit\nINVARIANT StatusTruth\nINVARIANT QuietPods\nCHECK_DEADLOCK FALSE\n"
+    t0 = time.time()
+    r = ctx._tlc_with_cfg("SimCluster", "gen_sim.cfg", simcfg, wd, 4, 1200, "4g", False,
+                          simulate=["-simulate", "num=%d" % max(1, ntlc // 16), "-depth", str(depth + 2), "-seed", str(vlib.seed())])
+    if r.errors or r.violations:
+        raise Infra("SimCluster: the model violates its own invariants in simulation: %s %s\n%s" %
+                    ([v[0] for v in r.violations][:3], r.errors[:1], r.out[-2000:]))
+    behs = extract_behaviours(r.out, ntlc)
+    if len(behs) < min(20, ntlc):
+        raise Infra("SimCluster produced only %d behaviours\n%s" % (len(behs), r.out[-1500:]))
+    bf = os.path.join(wd, "behaviours.ndjson")
+    with open(bf, "w") as f:
+        f.write("\n".join(behs) + "\n")
+    m = re.search(r"(\d+) states checked", r.out)
+    if m:
+        ctx.states += int(m.group(1))
+        ctx.transitions += int(m.group(1))
+    log("  simul. %-28s %d behaviours of depth %d from TLC (%s states checked), %.1fs" % ("SimCluster", len(behs), depth, m.group(1) if m else "?", time.time() - t0))
+    d, shards, meta = ctx.harness(["sim", "--in", bf, "--random", str(nrand), "--maxord", "2", "--depth", str(depth),
+                                   "--seed", str(vlib.seed()), "--workers", str(vlib.NCPU)], "behaviours")
+    tcfg = open(os.path.join(vlib.SPEC, "Trace_Cluster.cfg")).read() + "INVARIANT B_Conf\n" + "".join("INVARIANT %s\n" % i for i in beh_invs)
+    ctx.trace("TraceCluster", tcfg, shards, "behaviours", set(beh_invs), conf_inv="B_Conf",
+              replay=lambda rec: {"kind": "beh", "id": rec.get("id"), "acts": [s["act"] for s in rec["steps"]]}, heap="4g")
+    # every reconcile of every behaviour, judged like the single reconciles of the snapshot engine
+    recs = sorted(glob.glob(os.path.join(d, "recs-*.ndjson")))
+    recs = [x for x in recs if os.path.getsize(x) > 0]
+    ctx.trace("TraceSnap", trace_snap_cfg(rec_invs), recs, "behaviour-reconciles", set(rec_invs),
+              replay=lambda rec: {"kind": "rec", "note": "reconcile inside a behaviour; see the behaviour shard"})
+    ctx.extra.setdefault("behaviours", []).append(meta)
+    for rec in vlib.sample_records(shards, 1):
+        slim = {"id": rec["id"], "acts": [s["act"] for s in rec["steps"]], "rounds_to_fixed_point": rec["rounds"], "quiet": rec["quiet"],
+                "final": rec["final"]}
+        if len(ctx.samples) < 6:
+            ctx.samples.append(slim)
+
+
+def replay_beh(prop, inv, rp, wd):
+    bf = os.path.join(wd, "beh.ndjson")
+    with open(bf, "w") as f:
+        f.write(json.dumps({"acts": rp["acts"]}) + "\n")
+    vlib.run_harness(["sim", "--in", bf, "--random", "0", "--workers", "1", "--out", os.path.join(wd, "rec")])
+    sh = os.path.join(wd, "rec", "shard-00.ndjson")
+    c = Ctx.__new__(Ctx)
+    tcfg = open(os.path.join(vlib.SPEC, "Trace_Cluster.cfg")).read() + "INVARIANT %s\n" % inv
+    r = Ctx._tlc_with_cfg(c, "TraceCluster", "replay.cfg", tcfg, os.path.join(wd, "tlc"), 1, 600, "2g", True, env={"VERIF_TRACE": sh})
+    if r.errors:
+        return False, "replay could not be evaluated: " + r.errors[0][:300]
+    return any(v[0] == inv for v in r.violations), "invariant %s holds on replay" % inv
+
+
+REPLAYERS["beh"] = replay_beh
+
+
+def check_C02(ctx):
+    cluster_check(ctx, ["B_C02"], ["P_C03", "P_C04"], invariants=["StatusTruth", "QuietPods"], properties=["Converges"], faults=0, fails=0)
+    ctx.assumptions.append("liveness is established on the model under weak fairness (TLC, exhaustive for 2 ordinals) and, on the code, as "
+                           "bounded convergence of a fair schedule from every replayed and random behaviour")
 
 
 # =================================================================================
@@ -462,6 +578,6 @@ def check_C01(ctx):
 
 
 CHECKS = {
-    "C01": check_C01, "C06": check_C06, "C09": check_C09, "C10": check_C10, "C11": check_C11, "C13": check_C13, "C15": check_C15,
+    "C01": check_C01, "C02": check_C02, "C08": check_C08, "C06": check_C06, "C09": check_C09, "C10": check_C10, "C11": check_C11, "C13": check_C13, "C15": check_C15,
     "C03": check_C03, "C04": check_C04, "C05": check_C05, "C07": check_C07, "C12": check_C12, "C14": check_C14,
 }
